@@ -77,7 +77,7 @@ func RunCases(prelude string, assumes []*Term, goals []CaseGoal, insts []CaseIns
 	nb := (len(insts) + caseBatch - 1) / caseBatch
 	outs := make([]batchOut, nb)
 	var wg sync.WaitGroup
-	sem := make(chan struct{}, parallelism)
+	sem := make(chan struct{}, 16)
 	for b := 0; b < nb; b++ {
 		lo, hi := b*caseBatch, (b+1)*caseBatch
 		if hi > len(insts) {
@@ -88,7 +88,7 @@ func RunCases(prelude string, assumes []*Term, goals []CaseGoal, insts []CaseIns
 		termMark()
 		var sb strings.Builder
 		sb.WriteString(scriptHead)
-		sb.WriteString(prelude)
+		sb.WriteString(filterPrelude(prelude, ""))
 		sb.WriteString(structSortDeclsExtra(prelude))
 		type expect struct {
 			inst int
